@@ -37,6 +37,9 @@ def make_config(kind):
 
 class C12(Prop):
     id = "C12"
+    # the variational (VMF) equations of motion occasionally become stiff on trees with dummy nodes and one case can then take
+    # minutes inside scipy's integrator: such a case is abandoned after 25 s and counted as inconclusive (never as a violation)
+    case_timeout = 25
     rule = ("Hypothesis draws a tree (2-6 nodes: constructors and random topologies with multi-basis and dummy nodes; no / one / two "
             "quantum numbers), a real Hermitian Hamiltonian scaled to ||H||=1, a random TTNS (real/complex, prefactor) and a mode: "
             "exact (VMF / one-site PS / two-site PS at full bond dimension, real and imaginary time, 1-4 successive calls) vs dense expm; "
@@ -166,7 +169,7 @@ class C12(Prop):
         before = psi0.copy()
         c0 = x.coeff
         nstep = case["nstep"] if mode in ("exact", "conserve", "limit") else 1
-        if imag and kind == "tdvp_vmf":
+        if kind == "tdvp_vmf":
             nstep = min(nstep, 2)
         tau = -1j * t if imag else t
         if not imag and kind != "tdvp_vmf" and case["rng"] % 3 == 0:
